@@ -2079,6 +2079,11 @@ func (s *Netceptor) runProtocol(ctx context.Context, sess BackendSession, bi *Ba
 					}
 					remoteNodeID = ri.ForwardingNode
 					// Decide whether the remote node is acceptable
+					if remoteNodeID == "" {
+						verifhook.Emit(s.vn, "reject", "sess", ci.vsess, "peer", remoteNodeID, "why", "empty_id")
+
+						return s.sendAndLogConnectionRejection(remoteNodeID, ci, "it did not announce a node ID")
+					}
 					if remoteNodeID == s.nodeID {
 						verifhook.Emit(s.vn, "reject", "sess", ci.vsess, "peer", remoteNodeID, "why", "self")
 
